@@ -5,7 +5,26 @@ SOLVER_CORE = ["solve_expression", "find", "lemma_match_unfold", "lemma_ids_wf",
                "lemma_and3_skip", "lemma_and3_first", "lemma_and3_all_true", "lemma_and3_true_iff",
                "lemma_and2", "lemma_or2", "lemma_count_true_step", "lemma_count_true_mono", "lemma_count_true_bound"]
 
+FRONT_PARSE = ["parse", "parse_expr", "parse_led", "parse_nud", "is_solvable"]
+FRONT_LEX = ["tokenise", "consume_while", "match_ahead"]
+
 PROPS = {
+    "C03": {
+        "units": {"front": FRONT_PARSE, "solver": ["solve_expression", "lemma_syntax_to_wf", "lemma_match_unfold", "lemma_ids_wf"]},
+        "explanation": "every panic site of the extracted solver functions is discharged from wf(); the condition parser is proved to establish wf_syntax (operands of and/or/not are predicates), and lemma_syntax_to_wf bridges the two",
+        "assumptions": ["identifier-existence scan in the serde visitor (rule.rs:101-125) is not under contract: closed(e, ids) is an assumed link",
+                        "identifier bodies built by parse_mapping are assumed well formed (ids_wf)"],
+    },
+    "C04": {
+        "units": {"front": FRONT_LEX + FRONT_PARSE},
+        "explanation": "termination (decreases on remaining chars/tokens) and panic-freedom of the tokeniser and the Pratt parser for inputs of any length",
+        "assumptions": ["conditions shorter than 2^31 tokens (i32 parenthesis depth counter)"],
+    },
+    "C05": {
+        "units": {"front": ["binding_power", "match_ahead", "consume_while", "tokenise"] + FRONT_PARSE},
+        "explanation": "binding-power table pinned (cmp > or > and, not tightest, atoms 0); keyword look-ahead helper proved to test exactly a prefix of the remaining text",
+        "assumptions": [],
+    },
     "C06": {
         "units": {"solver": SOLVER_CORE},
         "explanation": "and/or/not/all/of arms of the real solve_expression are proved equal to the truth-table spec (and3/or3/not3/of3 over sems) for groups of any length",
